@@ -11,7 +11,8 @@ NAMES = ['/etc/passwd', '/etc/hosts.d/a', '/home/alice/.config/app/settings.json
          '/tmp/user/1000/f', '/run/udev/data/c1:3', '/home/alice/My Documents/a b.txt', '/home/alice/a=b#c,d',
          '/opt/X/Y', '/usr/share/icons/', '/etc/resolv.conf', '/etc/console-setup/x', '/dev/tty1', '/dev/dri/card0',
          '/home/alice/.local/share/app/', '/home/alice/café', '/var/lib/dpkg/status', '/etc/machine-id',
-         '/sys/dev/block/8:16/uevent', '/tmp/x:1', '/srv/app/state/worker.pid=4242', '/run/lock/old.peer_pid=16', '/srv/share/DOMAIN\\alice/my file', '/tmp/tab\there']
+         '/sys/dev/block/8:16/uevent', '/tmp/x:1', '/srv/app/state/worker.pid=4242', '/run/lock/old.peer_pid=16', '/srv/share/DOMAIN\\alice/my file', '/tmp/tab\there',
+         '/opt/dl/report%20final.pdf', '/srv/quota/100%', '/tmp/%s%d%v/%!x']
 PROFILES = ['foo', 'foo//bar', 'bar', 'foobar', 'firefox', 'firefox//null-/usr/bin/lsb_release', 'dbus-daemon', 'a b', 'xdg-open']
 OPS_FILE = [('open', 'r'), ('open', 'w'), ('open', 'rw'), ('mknod', 'c'), ('unlink', 'd'), ('truncate', 'w'), ('exec', 'x'),
             ('file_mmap', 'rm'), ('file_lock', 'k'), ('link', 'l'), ('rename_src', 'rw'), ('mkdir', 'c'), ('chmod', 'w'),
@@ -91,11 +92,11 @@ def gen_event(rng, noise=False):
               ('sock_type', rng.choice(['stream', 'dgram', 'raw']), None), ('protocol', str(rng.choice([0, 6, 17])), 'bare'),
               ('requested_mask', rng.choice(['create', 'send receive', 'bind']), None), ('denied_mask', 'create', None)]
     elif k < 0.75:
-        f += [('operation', 'signal', None), ('class', 'signal', None), ('profile', prof, None), ('pid', pid, 'bare'), ('comm', comm, None),
+        f += [('operation', 'signal', None)] + ([('class', 'signal', None)] if rng.random() < 0.75 else []) + [('profile', prof, None), ('pid', pid, 'bare'), ('comm', comm, None),
               ('requested_mask', rng.choice(['send', 'receive']), None), ('denied_mask', 'send', None),
               ('signal', rng.choice(['term', 'kill', 'hup', 'int']), 'bare'), ('peer', rng.choice(PROFILES), None)]
     elif k < 0.82:
-        f += [('operation', 'ptrace', None), ('class', 'ptrace', None), ('profile', prof, None), ('pid', pid, 'bare'), ('comm', comm, None),
+        f += [('operation', 'ptrace', None)] + ([('class', 'ptrace', None)] if rng.random() < 0.75 else []) + [('profile', prof, None), ('pid', pid, 'bare'), ('comm', comm, None),
               ('requested_mask', rng.choice(['read', 'trace', 'readby', 'tracedby']), None), ('denied_mask', 'read', None),
               ('peer', rng.choice(PROFILES), None)]
     elif k < 0.92:
@@ -107,7 +108,8 @@ def gen_event(rng, noise=False):
         if rng.random() < 0.3:
             f.pop()        # dbus-daemon writes no peer_label for some messages: the record then ends with peer_pid=N
     else:
-        f += [('operation', 'mount', None), ('class', 'mount', None), ('info', 'failed mntpnt match', None), ('error', '-13', 'bare'),
+        # (kernels before 6.x write no class= field: the operation alone names the kind)
+        f += [('operation', 'mount', None)] + ([('class', 'mount', None)] if rng.random() < 0.75 else []) + [('info', 'failed mntpnt match', None), ('error', '-13', 'bare'),
               ('profile', prof, None), ('name', rng.choice(['/mnt/', '/run/x/']), None), ('pid', pid, 'bare'), ('comm', comm, None),
               ('fstype', rng.choice(['tmpfs', 'ext4']), None), ('srcname', rng.choice(['tmpfs', '/dev/sda1', '/mnt/data/My Videos/', '/mnt/data/Vidéos/']), None),
               ('flags', rng.choice(['rw, nosuid', 'ro, remount']), None)]
